@@ -334,6 +334,25 @@ def check_parse_first(facts, pf, out):
 
 # ------------------------------------------------------------------------------ F5 (C04)
 
+def section_writers(facts):
+    """header text -> function whose own first write starts with `[header]` (found by what it
+    writes, not by its name)"""
+    res = {}
+    for path, h2 in facts.hir.items():
+        if not path.startswith('encode::'):
+            continue
+        evs2 = [e for e in H.write_events(h2) if e['kind'] in ('fmt', 'bytes')]
+        if not evs2:
+            continue
+        txt = H.event_text(evs2[0])
+        if txt is None:
+            continue
+        mm = re.match(r'\[([^\]\n]*)\]\n', txt)
+        if mm and not evs2[0]['conds']:
+            res.setdefault(mm.group(1), []).append(path)
+    return res
+
+
 def run_encode_framing(facts, out, tab=None):
     if tab is None:
         o2 = type(out)()
@@ -343,58 +362,69 @@ def run_encode_framing(facts, out, tab=None):
     out.anchor('FR', 'Beatmap::encode (HIR)', hfn is not None)
     if hfn is None:
         return
-    evs = H.write_events(hfn)
-    inits = H.binding_inits(hfn)
-    # first event: version line
-    first = evs[0] if evs else None
+    evs = H.flat_write_events(facts, enc)
+    inits = {}
+    for f in {e['fn'] for e in evs}:
+        inits[f] = H.binding_inits(facts.hir[f])
+    wevs = [e for e in evs if e['kind'] in ('fmt', 'bytes')]
+    first = wevs[0] if wevs else None
     ok = bool(first and first['kind'] == 'fmt' and first['pieces'][:1] == [('lit', 'osu file format v')]
-              and first['args'] and H.roots_of(first['args'][0], inits) == {'format_version'}
+              and first['args'] and H.roots_of(first['args'][0], inits[first['fn']]) == {'format_version'}
               and first['pieces'][-1] == ('lit', '\n') and not first['conds'])
     out.add('FR-F5', enc, 'version-line-first', 'src/encode.rs:%d' % (first['ln'] if first else 0), ok,
-            '' if ok else 'the first thing written is not the line `osu file format v{format_version}`',
+            '' if ok else 'the first thing written is not the unconditional line `osu file format v{format_version}`',
             ordinal=False)
-    calls = [e for e in evs if e['kind'] == 'call']
-    names = [c['name'] for c in calls]
-    # header of each writer
-    writer_header = {}
-    all_headers = []
+    # headers in the flattened stream
+    stream_headers = []
+    for e in wevs:
+        txt = H.event_text(e)
+        if txt is None:
+            continue
+        for line in txt.split('\n'):
+            mm = re.fullmatch(r'\[([^\]]*)\]', line.strip())
+            if mm:
+                stream_headers.append((mm.group(1), e))
+    names = [h for h, _e in stream_headers]
+    cond = [h for h, e in stream_headers if e['conds']]
+    ok = names == CANONICAL_ORDER and not cond
+    out.add('FR-F5', enc, 'section-order', 'src/encode.rs:%d' % (stream_headers[0][1]['ln'] if stream_headers else 0), ok,
+            '' if ok else ('section headers are written as %s%s; the canonical order (each exactly once, unconditionally) '
+                           'is %s') % (names, ' (conditionally/in a loop: %s)' % cond if cond else '', CANONICAL_ORDER),
+            ordinal=False)
+    for h, e in stream_headers:
+        okh = tab.get(h) == HEADER_TO_VARIANT.get(h)
+        out.add('FR-F5', e['fn'], 'header:' + h, 'src/encode.rs:%d' % e['ln'], okh,
+                '' if okh else 'header `[%s]` is written but the decoder does not open a section for it' % h, ordinal=False)
+    # a header must start its own line: the previous written text ends with a newline
+    prev_txt = ''
+    for e in wevs:
+        txt = H.event_text(e)
+        if txt is None:
+            prev_txt = '?'
+            continue
+        mm = re.match(r'\[([^\]\n]*)\]\n', txt)
+        if mm:
+            okl = prev_txt.endswith('\n')
+            out.add('FR-F5', e['fn'], 'header-line-start:' + mm.group(1), 'src/encode.rs:%d' % e['ln'], okl,
+                    '' if okl else 'header `[%s]` does not start a new line' % mm.group(1), ordinal=False)
+        prev_txt = txt if txt else prev_txt
+    # stray headers: bracketed header literals in encoder functions outside the stream
+    in_stream = {(e['fn'], e['ln']) for _h, e in stream_headers}
     for path, h2 in facts.hir.items():
         if not path.startswith('encode::'):
             continue
-        evs2 = [e for e in H.write_events(h2) if e['kind'] in ('fmt', 'bytes')]
-        for idx, e in enumerate(evs2):
-            txt = None
-            if e['kind'] == 'fmt':
-                txt = ''.join(p[1] for p in e['pieces'] if p[0] == 'lit')
-            elif e['kind'] == 'bytes':
-                b = H.lit_bytes(e['e'])
-                txt = b.decode('utf-8', 'replace') if b is not None else None
+        for e in H.write_events(h2):
+            if e['kind'] not in ('fmt', 'bytes'):
+                continue
+            txt = H.event_text(e)
             if txt is None:
                 continue
             for line in txt.split('\n'):
                 mm = re.fullmatch(r'\[([^\]]*)\]', line.strip())
-                if mm:
-                    all_headers.append((path, mm.group(1), e['ln'], idx, bool(e['conds'])))
-    for path, hdr, ln, idx, cond in all_headers:
-        if idx == 0 and not cond and path not in writer_header:
-            writer_header[path] = (hdr, ln)
-        else:
-            out.add('FR-F5', path, 'stray-header:' + hdr, 'src/encode.rs:%d' % ln, False,
-                    'a bracketed header `[%s]` is written somewhere other than at the start of its section writer' % hdr)
-    exp_names = ['encode_' + snake(HEADER_TO_VARIANT[h]) for h in CANONICAL_ORDER]
-    ok = names == exp_names and all(not c['conds'] for c in calls)
-    out.add('FR-F5', enc, 'section-order', 'src/encode.rs:%d' % (calls[0]['ln'] if calls else 0), ok,
-            '' if ok else 'sections are written as %s; the canonical order (each exactly once, unconditionally) is %s'
-            % (names, exp_names), ordinal=False)
-    for h in CANONICAL_ORDER:
-        wname = 'encode::<impl beatmap::Beatmap>::encode_' + snake(HEADER_TO_VARIANT[h])
-        got = writer_header.get(wname)
-        ok = got is not None and got[0] == h and tab.get(h) == HEADER_TO_VARIANT[h]
-        out.add('FR-F5', wname, 'header', 'src/encode.rs:%d' % (got[1] if got else 0), ok,
-                '' if ok else ('the first write of this section writer is `[%s]`; the decoder opens section `%s` only '
-                               'for `[%s]`') % (got[0] if got else None, HEADER_TO_VARIANT[h], h), ordinal=False)
-    # flush last
+                if mm and (path, e['ln']) not in in_stream:
+                    out.add('FR-F5', path, 'stray-header:' + mm.group(1), 'src/encode.rs:%d' % e['ln'], False,
+                            'a bracketed header `[%s]` is written outside the section sequence of Beatmap::encode' % mm.group(1))
     last = evs[-1] if evs else None
-    out.add('FR-F5', enc, 'flush-last', 'src/encode.rs:%d' % (last['ln'] if last else 0),
-            bool(last and last['kind'] == 'flush'), '' if last and last['kind'] == 'flush' else 'flush is not the last writer action',
-            ordinal=False)
+    okf = bool(last and last['kind'] == 'flush' and not last['conds'])
+    out.add('FR-F5', enc, 'flush-last', 'src/encode.rs:%d' % (last['ln'] if last else 0), okf,
+            '' if okf else 'flush is not the last writer action', ordinal=False)
